@@ -1,7 +1,7 @@
 #!/bin/bash
-# soak.sh [n] : quick tier of every check on the UNCHANGED tree with n different seeds; anything but exit 0 is reported.
-ROOT=$(cd "$(dirname "$0")/.." && pwd); cd "$ROOT"; n=${1:-20}; bad=0
-for i in $(seq 1 $n); do
+# soak.sh [n] [first] : quick tier of every check on the UNCHANGED tree with n different seeds; anything but exit 0 is reported.
+ROOT=$(cd "$(dirname "$0")/.." && pwd); cd "$ROOT"; n=${1:-20}; first=${2:-1}; bad=0
+for i in $(seq $first $((first+n-1))); do
   seed=$((7919*i+13))
   for p in C11 C13 C14 C19; do
     out=$(VERIF_SEED=$seed VERIF_OUT=$ROOT/.tmp/soak-out ./check.sh $p quick 2>&1); rc=$?
